@@ -200,7 +200,9 @@ wait:
 	return nil
 }
 
-func pipeDelivery(l *pipeLog, rng *rand.Rand, nkeys, nposters, nposts int, useChannel bool) error {
+// bulk: all keys arrive as one paste of three-byte characters (the 128-byte reads of the input loop end inside
+// characters) and the application polls slowly throughout.
+func pipeDelivery(l *pipeLog, rng *rand.Rand, nkeys, nposters, nposts int, useChannel, bulk bool) error {
 	s, tty, err := newLiveScreen("xterm-256color", 20, 5)
 	if err != nil {
 		return err
@@ -227,6 +229,9 @@ func pipeDelivery(l *pipeLog, rng *rand.Rand, nkeys, nposters, nposts int, useCh
 		switch v := ev.(type) {
 		case *tcell.EventKey:
 			e["kind"], e["id"] = "in", int(v.Rune())-0x100
+			if v.Rune() >= 0x1000 {
+				e["id"] = int(v.Rune()) - 0x1000
+			}
 			if v.Key() != tcell.KeyRune {
 				e["kind"] = "other"
 			}
@@ -266,6 +271,12 @@ func pipeDelivery(l *pipeLog, rng *rand.Rand, nkeys, nposters, nposts int, useCh
 			}
 			if prng.Intn(4) == 0 {
 				time.Sleep(time.Duration(prng.Intn(3000)) * time.Microsecond)
+			}
+			if bulk {
+				time.Sleep(2 * time.Millisecond)
+			}
+			if prng.Intn(40) == 0 { // the application is busy for longer than the escape timeout: the queues back up
+				time.Sleep(time.Duration(70+prng.Intn(60)) * time.Millisecond)
 			}
 			if useChannel {
 				select {
@@ -324,6 +335,17 @@ func pipeDelivery(l *pipeLog, rng *rand.Rand, nkeys, nposters, nposts int, useCh
 	}
 	// injector
 	k := 0
+	if bulk {
+		var b []byte
+		ids := []int{}
+		for ; k < nkeys; k++ {
+			b = append(b, []byte(string(rune(0x1000+k)))...)
+			ids = append(ids, k)
+		}
+		l.emit(trace.Ev{"ev": "Inject", "ids": ids, "focus": false, "at": us(time.Now())})
+		atomic.AddInt64(&expectTotal, int64(len(ids)))
+		tty.Inject(b)
+	}
 	for k < nkeys {
 		n := 1 + rng.Intn(3)
 		var b []byte
@@ -342,7 +364,16 @@ func pipeDelivery(l *pipeLog, rng *rand.Rand, nkeys, nposters, nposts int, useCh
 		if focus {
 			atomic.AddInt64(&expectTotal, 1)
 		}
-		tty.Inject(b)
+		if len(b) > 1 && rng.Intn(3) == 0 { // the read ends inside a character or a report
+			k := 1 + rng.Intn(len(b)-1)
+			tty.Inject(b[:k])
+			if rng.Intn(2) == 0 {
+				time.Sleep(time.Duration(rng.Intn(400)) * time.Microsecond)
+			}
+			tty.Inject(b[k:])
+		} else {
+			tty.Inject(b)
+		}
 		if rng.Intn(3) == 0 {
 			time.Sleep(time.Duration(rng.Intn(1500)) * time.Microsecond)
 		}
@@ -672,6 +703,7 @@ func pipeMain(args []string) error {
 	mode := fs.String("mode", "delivery", "delivery | shutdown")
 	runs := fs.Int("runs", 10, "delivery runs / repetitions of each start state")
 	ttyKind := fs.String("tty", "fake", "fake | pty (tcell's real device Tty on a pseudo-terminal)")
+	allBulk := fs.Bool("bulk", false, "delivery: every run is a paste of three-byte characters to a slowly polling application")
 	fs.Parse(args)
 	pipeTtyKind = *ttyKind
 	if pipeTtyKind == "pty" {
@@ -691,7 +723,11 @@ func pipeMain(args []string) error {
 	if *mode == "delivery" {
 		for i := 0; i < *runs; i++ {
 			nk, np, nn := 60+rng.Intn(80), 1+rng.Intn(3), 10+rng.Intn(40)
-			if err := pipeDelivery(l, rng, nk, np, nn, i%4 == 3); err != nil {
+			bulk := i%5 == 4 || *allBulk
+			if bulk {
+				nk = 250 + rng.Intn(200)
+			}
+			if err := pipeDelivery(l, rng, nk, np, nn, i%4 == 3, bulk); err != nil {
 				return err
 			}
 			hists++
